@@ -338,3 +338,193 @@ Section Mutators.
     eapply frame_step; eauto; now rewrite E.
   Qed.
 End Mutators.
+
+(* ------------------------------------------------------------------------------------------ *)
+(* 6. structural mutators: the registry part                                                    *)
+(* ------------------------------------------------------------------------------------------ *)
+Lemma fli_some : forall l i o rc inn,
+    find_link_innov l i o rc = Some inn ->
+    In inn l /\ i_type inn = 2 /\ i_in inn = i /\ i_out inn = o /\ i_rec inn = rc.
+Proof.
+  induction l as [|x l IH]; intros i o rc inn H; cbn [find_link_innov] in H; [discriminate|].
+  destruct (_ && _) eqn:E.
+  - injection H as <-. repeat (apply andb_true_iff in E; destruct E as [E ?]).
+    repeat match goal with H : Z.eqb _ _ = true |- _ => apply Z.eqb_eq in H end.
+    match goal with H : Bool.eqb _ _ = true |- _ => apply eqb_prop in H end.
+    repeat split; auto. now left.
+  - destruct (IH _ _ _ _ H) as (Hin & Hrest). split; [now right|exact Hrest].
+Qed.
+
+Lemma fli_none : forall l i o rc,
+    find_link_innov l i o rc = None ->
+    forall x, In x l -> i_type x = 2 -> i_in x = i -> i_out x = o -> i_rec x = rc -> False.
+Proof.
+  induction l as [|y l IH]; intros i o rc H x Hx Ht Hi Ho Hr; [destruct Hx|].
+  cbn [find_link_innov] in H. destruct (_ && _) eqn:E; [discriminate|].
+  destruct Hx as [->|Hx]; [|eapply IH; eauto].
+  rewrite Ht, Hi, Ho, Hr, !Z.eqb_refl, eqb_reflx in E. discriminate.
+Qed.
+
+Lemma fni_some : forall l i o old inn,
+    find_node_innov l i o old = Some inn ->
+    In inn l /\ i_type inn = 1 /\ i_in inn = i /\ i_out inn = o /\ i_old inn = old.
+Proof.
+  induction l as [|x l IH]; intros i o old inn H; cbn [find_node_innov] in H; [discriminate|].
+  destruct (_ && _) eqn:E.
+  - injection H as <-. repeat (apply andb_true_iff in E; destruct E as [E ?]).
+    repeat match goal with H : Z.eqb _ _ = true |- _ => apply Z.eqb_eq in H end.
+    repeat split; auto. now left.
+  - destruct (IH _ _ _ _ H) as (Hin & Hrest). split; [now right|exact Hrest].
+Qed.
+
+Lemma fni_none : forall l i o old,
+    find_node_innov l i o old = None ->
+    forall x, In x l -> i_type x = 1 -> i_in x = i -> i_out x = o -> i_old x = old -> False.
+Proof.
+  induction l as [|y l IH]; intros i o old H x Hx Ht Hi Ho Hr; [destruct Hx|].
+  cbn [find_node_innov] in H. destruct (_ && _) eqn:E; [discriminate|].
+  destruct Hx as [->|Hx]; [|eapply IH; eauto].
+  rewrite Ht, Hi, Ho, Hr, !Z.eqb_refl in E. discriminate.
+Qed.
+
+Lemma in_snoc {A} (l : list A) (x y : A) : In y (l ++ [x]) -> In y l \/ y = x.
+Proof. intros H. apply in_app_or in H. destruct H as [H|[H|[]]]; auto. Qed.
+
+(* a new link record with a freshly issued number *)
+Lemma rok_new_link C e e' R NR r key :
+  rok C e R NR ->
+  innovs e' = innovs e ++ [r] -> next_innov e' = next_innov e + 1 -> next_node e' = next_node e ->
+  i_type r = 2 -> i_num r = next_innov e + 1 -> (i_in r, i_out r, i_rec r) = key ->
+  find_link_innov (innovs e) (i_in r) (i_out r) (i_rec r) = None ->
+  rok C e' (R ++ [(next_innov e + 1, key)]) NR /\
+  ext e e' R (R ++ [(next_innov e + 1, key)]) NR NR.
+Proof.
+  intros [A B D E F G H I J K] Ei En Enn Ht Hnum Hkey Hnone. split.
+  - constructor; rewrite ?Ei, ?En, ?Enn; try assumption.
+    + intros a b b' H1 H2. apply in_snoc in H1. apply in_snoc in H2.
+      destruct H1 as [H1|H1], H2 as [H2|H2].
+      * eapply A; eauto.
+      * injection H2 as -> ->. specialize (E _ _ H1). lia.
+      * injection H1 as -> ->. specialize (E _ _ H2). lia.
+      * congruence.
+    + lia.
+    + intros n k Hin. apply in_snoc in Hin. destruct Hin as [Hin|Hin].
+      * specialize (E _ _ Hin). lia.
+      * injection Hin as -> ->. lia.
+    + intros i Hin Hti. apply in_snoc in Hin. apply in_or_app. destruct Hin as [Hin| ->].
+      * left. now apply H.
+      * right. left. now rewrite Hnum, Hkey.
+    + intros i Hin Hti. apply in_snoc in Hin. destruct Hin as [Hin| ->]; [|congruence].
+      destruct (I i Hin Hti) as (I1 & I2 & rc & I3 & I4). split; [exact I1|]. split; [apply in_or_app; now left|].
+      exists rc. split; apply in_or_app; now left.
+    + intros i j Hi Hj Hti Htj E1 E2 E3. apply in_snoc in Hi. apply in_snoc in Hj.
+      destruct Hi as [Hi| ->], Hj as [Hj| ->]; [now apply J| | |reflexivity]; exfalso.
+      * apply (fli_none _ _ _ _ Hnone i Hi Hti); assumption.
+      * apply (fli_none _ _ _ _ Hnone j Hj Htj); auto.
+    + intros i j Hi Hj Hti Htj E1 E2 E3. apply in_snoc in Hi. apply in_snoc in Hj.
+      destruct Hi as [Hi| ->], Hj as [Hj| ->]; [now apply K|congruence|congruence|reflexivity].
+  - constructor; try lia.
+    + apply incl_appl, incl_refl.
+    + apply incl_refl.
+    + intros n k Hin. apply in_snoc in Hin. destruct Hin as [Hin|Hin]; [now left|]. injection Hin as -> ->. right. lia.
+    + auto.
+Qed.
+
+(* the gene inserted by add-link / connect-sensors is registered *)
+Lemma link_from_env_reg C R NR g x s s' :
+  rok C (s_env s) R NR -> link_from_env g x s s' ->
+  exists R', ext (s_env s) (s_env s') R R' NR NR /\ rok C (s_env s') R' NR /\ In (g_innov x, link_key x) R'.
+Proof.
+  intros RO [(inn & tr & Hf & _ & Hx & _ & Es)|(Hf & tn & w & tr & _ & Hx & Hin & Hni & Hnn)].
+  - apply fli_some in Hf. destruct Hf as (Hinn & Hty & Hi & Ho & Hr).
+    exists R. rewrite Es. split; [apply ext_refl|]. split; [exact RO|].
+    assert (Hnum : g_innov x = i_num inn) by (rewrite Hx; reflexivity).
+    rewrite Hnum. unfold link_key. rewrite <- Hi, <- Ho, <- Hr. now apply (ro_link _ _ _ _ RO).
+  - set (r := link_innovation (g_in x) (g_out x) (next_innov (s_env s) + 1) w tn (g_rec x)) in *.
+    assert (Hnum : g_innov x = next_innov (s_env s) + 1) by (rewrite Hx; reflexivity).
+    destruct (rok_new_link C (s_env s) (s_env s') R NR r (link_key x) RO Hin Hni Hnn) as [RO' X]; try reflexivity.
+    + exact Hf.
+    + exists (R ++ [(next_innov (s_env s) + 1, link_key x)]). split; [exact X|]. split; [exact RO'|].
+      apply in_or_app. right. left. now rewrite Hnum.
+Qed.
+
+Lemma insert_agrees R g x : g_agrees R g -> In (g_innov x, link_key x) R ->
+  g_agrees R (with_genes g (gene_insert (genes g) x)).
+Proof.
+  intros A Hx z Hz. cbn [genes with_genes] in Hz. apply (insert_sorted_In g_innov) in Hz.
+  destruct Hz as [->|Hz]; [exact Hx|now apply A].
+Qed.
+
+Lemma insert_keeps_innovs g x n :
+  In n (map g_innov (genes g)) -> In n (map g_innov (genes (with_genes g (gene_insert (genes g) x)))).
+Proof.
+  intros H. apply in_map_iff in H. destruct H as (z & <- & Hz). apply in_map. cbn [genes with_genes].
+  apply (insert_sorted_In g_innov). now right.
+Qed.
+
+Lemma agrees_incl R R' g : incl R R' -> g_agrees R g -> g_agrees R' g.
+Proof. intros I A x Hx. apply I. now apply A. Qed.
+Lemma nagrees_incl R R' g : incl R R' -> n_agrees R g -> n_agrees R' g.
+Proof. intros I A x Hx. apply I. now apply A. Qed.
+
+(* the registry part of one structural step: independent of well-formedness *)
+Definition reg_step (C : ctx) (e e' : ienv) (R : reg) (NR : nreg) (g g' : genome) : Prop :=
+  exists R' NR', ext e e' R R' NR NR' /\ rok C e' R' NR' /\ g_agrees R' g' /\ n_agrees NR' g' /\
+                 traits g' = traits g /\
+                 (forall n, In n (map g_innov (genes g)) -> In n (map g_innov (genes g'))).
+
+Lemma reg_step_refl C e e' R NR g :
+  rok C e R NR -> g_agrees R g -> n_agrees NR g -> e' = e -> reg_step C e e' R NR g g.
+Proof. intros RO A N ->. exists R, NR. split; [apply ext_refl|]. split; [exact RO|]. split; [exact A|]. split; [exact N|]. split; [reflexivity|auto]. Qed.
+
+Lemma add_link_reg C R NR o g s g' b s' :
+  rok C (s_env s) R NR -> g_agrees R g -> n_agrees NR g ->
+  mutate_add_link o g s = Ok ((g', b), s') -> reg_step C (s_env s) (s_env s') R NR g g'.
+Proof.
+  intros RO A N H. apply add_link_inv in H.
+  destruct H as [(_ & -> & Es)|(_ & x & n1 & n2 & s1 & _ & _ & _ & _ & _ & Hs1 & Hfrom & ->)].
+  - now apply reg_step_refl.
+  - rewrite <- Hs1 in *. destruct (link_from_env_reg C R NR g x s1 s' RO Hfrom) as (R' & X & RO' & Hx).
+    exists R', NR. split; [exact X|]. split; [exact RO'|]. split; [|split; [exact N|split; [reflexivity|]]].
+    + apply insert_agrees; [eapply agrees_incl; [apply (x_R _ _ _ _ _ _ X)|exact A]|exact Hx].
+    + intros n. apply insert_keeps_innovs.
+Qed.
+
+Lemma connect_fold_reg C sid : forall outs g added stop s g' added' stop' s' R NR,
+    rok C (s_env s) R NR -> g_agrees R g -> n_agrees NR g ->
+    foldM (connect_one sid) outs (g, added, stop) s = Ok ((g', added', stop'), s') ->
+    reg_step C (s_env s) (s_env s') R NR g g' /\ nodes g' = nodes g.
+Proof.
+  induction outs as [|out outs IH]; intros g added stop s g' added' stop' s' R NR RO A N H; cbn [foldM] in H.
+  - minv. pairs. subst. split; [now apply reg_step_refl|reflexivity].
+  - minv. destruct a as [[g1 added1] stop1].
+    assert (Hstep : reg_step C (s_env s) (s_env s0) R NR g g1 /\ nodes g1 = nodes g).
+    { apply connect_one_inv in E.
+      destruct E as [(_ & -> & _ & _ & ->)|(_ & _ & [(-> & _ & _ & Es)|(x & _ & _ & _ & _ & Hfrom & -> & _ & _)])].
+      - split; [now apply reg_step_refl|reflexivity].
+      - split; [now apply reg_step_refl|reflexivity].
+      - split; [|reflexivity]. destruct (link_from_env_reg C R NR g x s s0 RO Hfrom) as (R' & X & RO' & Hx).
+        exists R', NR. split; [exact X|]. split; [exact RO'|]. split; [|split; [exact N|split; [reflexivity|]]].
+        + apply insert_agrees; [eapply agrees_incl; [apply (x_R _ _ _ _ _ _ X)|exact A]|exact Hx].
+        + intros n. apply insert_keeps_innovs. }
+    destruct Hstep as [(R1 & N1 & X1 & RO1 & A1 & NA1 & T1 & F1) Hn1].
+    destruct (IH _ _ _ _ _ _ _ _ R1 N1 RO1 A1 NA1 H) as [(R2 & N2 & X2 & RO2 & A2 & NA2 & T2 & F2) Hn2].
+    split; [|congruence]. exists R2, N2. split; [eapply ext_trans; eauto|]. split; [exact RO2|].
+    split; [exact A2|]. split; [exact NA2|]. split; [congruence|]. auto.
+Qed.
+
+Lemma connect_sensors_reg C R NR g s g' b s' :
+  rok C (s_env s) R NR -> g_agrees R g -> n_agrees NR g ->
+  mutate_connect_sensors g s = Ok ((g', b), s') -> reg_step C (s_env s) (s_env s') R NR g g'.
+Proof.
+  unfold mutate_connect_sensors. intros RO A N H. destruct (genes g) as [|x0 gs0] eqn:Eg; [minv|].
+  rewrite <- Eg in H. clear x0 gs0 Eg.
+  destruct (filter _ (filter is_sensor (nodes g))) as [|d0 ds] eqn:Edis.
+  { minv. pairs. subst. now apply reg_step_refl. }
+  rewrite <- Edis in H. minv. subst.
+  destruct a1 as [[g1 added] stop]. minv. pairs. subst.
+  match goal with H : foldM _ _ _ _ = Ok _ |- _ => rename H into Hfold end.
+  match goal with H : r_intn _ _ = Ok _ |- _ => apply ep_intn in H; rename H into Es0 end.
+  rewrite <- Es0 in *.
+  exact (proj1 (connect_fold_reg C _ _ _ _ _ _ _ _ _ _ R NR RO A N Hfold)).
+Qed.
